@@ -164,6 +164,7 @@ static int do_replay(const char *in, const char *out)
 	FILE *fi = fopen(in, "r"), *fo = fopen(out, "w");
 	if (!fi || !fo) { perror("open"); return 3; }
 	char *line = NULL; size_t cap = 0;
+	int ncrash = 0;
 	while (getline(&line, &cap, fi) > 0) {
 		char *save = NULL;
 		char *tok = strtok_r(line, " \n", &save);
@@ -185,7 +186,8 @@ static int do_replay(const char *in, const char *out)
 			if (pid == 0) {
 				close(pfd[0]);
 				FILE *pw = fdopen(pfd[1], "w");
-				fprintf(stderr, "#FORKED %s\n", id);
+				if (ncrash >= 5) { int fd = open("/dev/null", O_WRONLY); dup2(fd, 2); }
+				else fprintf(stderr, "#FORKED %s\n", id);
 				run_vector(regs, n, fin, fout, &r, &inv);
 				fprintf(pw, "%s %c %zu ", id, r.st, r.size);
 				if (r.st == 'R') put_hex(pw, r.b.p, r.b.n); else fputc('-', pw);
@@ -199,7 +201,7 @@ static int do_replay(const char *in, const char *out)
 			buf[got] = 0; close(pfd[0]);
 			int status = 0; waitpid(pid, &status, 0);
 			if (WIFEXITED(status) && WEXITSTATUS(status) == 0 && got > 0 && buf[got-1] == '\n') fputs(buf, fo);
-			else fprintf(fo, "%s X %d - -\n", id, WIFSIGNALED(status) ? 1000 + WTERMSIG(status) : WEXITSTATUS(status));
+			else { ncrash++; fprintf(fo, "%s X %d - -\n", id, WIFSIGNALED(status) ? 1000 + WTERMSIG(status) : WEXITSTATUS(status)); }
 		} else {
 			run_vector(regs, n, fin, fout, &r, &inv);
 			fprintf(fo, "%s %c %zu ", id, r.st, r.size);
